@@ -671,6 +671,15 @@ def with_new_helpers(repo, mod, fn, depth=3):
                             seen.add(id(g))
                             out.append(g)
                             nxt.append(g)
+                    imp = m.imports.get(nm)
+                    if imp and imp[0] and imp[0].startswith("pymeeus."):
+                        om = repo.modules.get(imp[0].split(".", 1)[1])
+                        oinv = inventory().get(imp[0].split(".", 1)[1])
+                        g = om.functions.get(imp[1]) if om is not None else None
+                        if g is not None and (oinv is None or imp[1] not in oinv["functions"]) and id(g) not in seen:
+                            seen.add(id(g))          # a new helper living in another module of the package
+                            out.append(g)
+                            nxt.append(g)
         frontier = nxt
     return out
 
@@ -859,6 +868,10 @@ def sign_simplify(t, facts, _memo=None):
                 r = args[0]
             elif s in ("-", "<=0"):
                 r = T.neg(args[0])
+        elif t[1] in ("int", "floor") and len(args) == 1 and args[0][0] == "call" and args[0][1] in ("int", "floor") and len(args[0]) == 3:
+            r = args[0]                                 # int(floor(x)) == floor(x), floor(int(x)) == int(x)
+        elif t[1] == "int" and len(args) == 1 and args[0][0] != "num" and sign_of(args[0], facts) in ("+", ">=0", "0"):
+            r = ("call", "floor", args[0])              # truncation == floor for a non-negative argument
         elif t[1] in ("int", "floor") and len(args) == 1 and args[0][0] == "num":
             r = T.num(Fraction(int(args[0][1]) if t[1] == "int" else math.floor(args[0][1])))
         elif t[1] == "mod" and len(args) == 2 and args[0][0] == "num" and args[1][0] == "num" and args[1][1] != 0:
